@@ -21,6 +21,7 @@ def tasks(tier, seed):
     ts = [
         func("bt.backtest.Backtest.run"),
         dict(kind="custom", module="props.misc_tasks", fn="c11_static"),
+        dict(kind="custom", module="props.misc_tasks", fn="backtest_init_task"),
         dict(kind="custom", module="props.bounded", fn="run_script", script="c11_isolation", seed=seed, n=3 if tier == "quick" else 25, props=["C11"]),
     ]
     ts.append(dict(kind="custom", module="props.C11", fn="hashseed_task", seed=seed, seeds=["1", "2", "3", "4"] if tier == "quick" else [str(i) for i in range(1, 17)]))
